@@ -559,7 +559,7 @@ func (sf *sliceFlow) writesThrough(fn *ssa.Function, root ssa.Value, d int) []sl
 // pureFunc: f only reads — no store outside its own locals, no map update, send, go or defer, and it calls
 // only len/cap, logging and other pure module functions (depth ≤ 2).
 func (w *World) pureFunc(f *ssa.Function, depth int) bool {
-	if f == nil || f.Blocks == nil || !w.InModule(f) || depth > 2 {
+	if f == nil || f.Blocks == nil || !w.InModule(f) || depth > 5 {
 		return false
 	}
 	ok := true
@@ -583,12 +583,30 @@ func (w *World) pureFunc(f *ssa.Function, depth int) bool {
 			ok = false
 		case *ssa.Call:
 			if b, isB := x.Call.Value.(*ssa.Builtin); isB {
-				if b.Name() != "len" && b.Name() != "cap" {
+				switch b.Name() {
+				case "len", "cap", "min", "max":
+				case "append":
+					// building a result list: the slice appended to is the function's own (nil, made here, or an earlier append)
+					if !w.ownSlice(x.Call.Args[0], 0) {
+						ok = false
+					}
+				default:
 					ok = false
 				}
 				return
 			}
 			if isLogCall(&x.Call) {
+				return
+			}
+			// library calls without effects beyond their arguments; the sorting ones only on the function's own slices
+			switch name := calleeName(&x.Call); {
+			case name == "sort.Strings" || name == "sort.Ints" || name == "sort.Slice" || name == "sort.SliceStable" || name == "slices.Sort":
+				if !w.ownSlice(x.Call.Args[0], 0) {
+					ok = false
+				}
+				return
+			case strings.HasPrefix(name, "strings.") && !strings.Contains(name, "Builder") || strings.HasPrefix(name, "strconv.") ||
+				name == "fmt.Sprintf" || name == "fmt.Sprint" || name == "time.Since" || name == "time.Now" || strings.HasPrefix(name, "time.(Time).") || strings.HasPrefix(name, "time.(Duration)."):
 				return
 			}
 			if g := x.Call.StaticCallee(); g == nil || !w.pureFunc(g, depth+1) {
@@ -597,4 +615,54 @@ func (w *World) pureFunc(f *ssa.Function, depth int) bool {
 		}
 	})
 	return ok
+}
+
+// ownSlice: v is a slice the current function built itself — nil, made here, a composite literal, or appended to / resliced
+// from such a slice (through phis and single-function locals); never a parameter, a field or a global.
+func (w *World) ownSlice(v ssa.Value, d int) bool {
+	return w.ownSliceRec(v, map[ssa.Value]bool{})
+}
+
+func (w *World) ownSliceRec(v ssa.Value, seen map[ssa.Value]bool) bool {
+	v = w.Resolve(v)
+	if seen[v] {
+		return true // a cycle through a loop phi adds no new origin
+	}
+	seen[v] = true
+	switch x := v.(type) {
+	case *ssa.Const:
+		return x.IsNil()
+	case *ssa.MakeSlice:
+		return true
+	case *ssa.Slice:
+		if _, ok := x.X.(*ssa.Alloc); ok {
+			return true // a slice of a local array (composite literal, variadic arguments)
+		}
+		return w.ownSliceRec(x.X, seen)
+	case *ssa.MakeInterface:
+		return w.ownSliceRec(x.X, seen)
+	case *ssa.Phi:
+		for _, e := range x.Edges {
+			if !w.ownSliceRec(e, seen) {
+				return false
+			}
+		}
+		return true
+	case *ssa.Call:
+		if b, ok := x.Call.Value.(*ssa.Builtin); ok && b.Name() == "append" {
+			return w.ownSliceRec(x.Call.Args[0], seen)
+		}
+	case *ssa.UnOp:
+		if a, ok := w.resolveAddr(x.X).(*ssa.Alloc); ok && a.Referrers() != nil {
+			for _, ref := range *a.Referrers() {
+				if st, isSt := ref.(*ssa.Store); isSt && st.Addr == ssa.Value(a) {
+					if !w.ownSliceRec(st.Val, seen) {
+						return false
+					}
+				}
+			}
+			return true
+		}
+	}
+	return false
 }
